@@ -75,7 +75,7 @@ pub fn check(c: &Call, rep: &mut Report) {
     } else if pkt[7] & 0xF0 != 0xC0 {
         bad("b7-flags", format!("byte 7 {:#04x}: SOM/EOM/seq != 1/1/0", pkt[7]));
     }
-    if pkt[8] != exp.ty {
+    if exp.outcome == Outcome::Ok && pkt[8] != exp.ty {
         bad("b8-type", format!("byte 8 {:#04x} != IC=0 | type {:#04x}", pkt[8], exp.ty));
     }
     if rep.want_sample() {
@@ -94,7 +94,8 @@ fn run(cfg: &RunCfg) -> Report {
     rep
 }
 
-/// Transport header of the packets process_packet encodes (destination named = the requester's EID).
+/// Transport header of the packets process_packet encodes (that the destination EID is the
+/// requester's is C12's claim and is not judged here).
 pub fn check_response(req: &[u8], resp: &[u8], who: &crate::libapi::CtxCfg, rep: &mut Report) {
     rep.eval();
     rep.class("responder:response");
@@ -111,9 +112,6 @@ pub fn check_response(req: &[u8], resp: &[u8], who: &crate::libapi::CtxCfg, rep:
     };
     if resp[4] != 0x01 {
         bad("b4-version", format!("byte 4 {:#04x} != 0x01", resp[4]));
-    }
-    if resp[5] != req[6] {
-        bad("b5-dest-eid", format!("byte 5 {:#04x} != requester EID {:#04x}", resp[5], req[6]));
     }
     if resp[6] != who.addr {
         bad("b6-source-eid", format!("byte 6 {:#04x} != own address {:#04x}", resp[6], who.addr));
